@@ -305,7 +305,7 @@ def replay_decode(c):
 
 
 def decode_parts(tier):
-    L = 8 if tier == 'quick' else 12
+    L = 10 if tier == 'quick' else 12
     out = [dict(kind='arbitrary', L=L, cls=c) for c in ('empty', 'digit', 'other')]
     # id cap: '2' + 97..99 sevens + up to 4 symbolic characters; count cap: '5' + 8..9 sevens + up to 4 symbolic
     for bulk in ((98,) if tier == 'quick' else (97, 98, 99)):
@@ -353,7 +353,7 @@ META = dict(
                 'outboxes do not change, and afterwards each bystander is served exactly as before (sentinels).',
     bounds={'quick': '1 offender frame from the full palette (type -1..8 x 5 namespaces x 15 id/payload/attachment '
                      'combinations, stray binary, 11 malformed texts) and 2 frames from a reduced palette (4 types x 2 namespaces x 4 combinations), interleaved '
-                     'with bystander events; arbitrary frames <= 8 code points; id run of '
+                     'with bystander events; arbitrary frames <= 10 code points; id run of '
                      '98 concrete digits + 4 symbolic characters; count run of 9 + 5',
             'thorough': '2 full-palette / 3 reduced-palette offender frames; frames <= 12; digit runs 97..99 / 8..10'},
     outside=['the offender\'s own connection', 'the msgpack and JSON parsers themselves (C extensions / stdlib; msgpack '
